@@ -20,8 +20,9 @@ import (
 
 // Behaviour is one history printed by EonPKMC!EmitInv.
 type Behaviour struct {
-	Mode Mode `json:"mode"`
-	Ops  []Op `json:"ops"`
+	Mode Mode     `json:"mode"`
+	Opts []string `json:"opts"` // the option sequence of the mode, as printed by TLC
+	Ops  []Op     `json:"ops"`
 }
 
 func wrapper(name, base string, u *Universe) []byte {
@@ -152,10 +153,12 @@ func (n *node) size() int {
 // task: replay prefix, then walk the subtree below it depth first
 type task struct {
 	mode Mode
+	opts []string
 	root *node // subtree root (its own op is the last op of the prefix); the trie root for an empty prefix
 }
 
 type taskResult struct {
+	opts  []string
 	lines []Line
 	nodes []*node // node of each line (nil for pop lines)
 	mode  Mode
@@ -165,12 +168,14 @@ type taskResult struct {
 
 func buildTasks(bs []Behaviour, splitDepth int) []task {
 	roots := map[Mode]*node{}
+	optsOf := map[Mode][]string{}
 	var modes []Mode
 	for _, b := range bs {
 		r := roots[b.Mode]
 		if r == nil {
 			r = &node{}
 			roots[b.Mode] = r
+			optsOf[b.Mode] = b.Opts
 			modes = append(modes, b.Mode)
 		}
 		n := r
@@ -184,7 +189,7 @@ func buildTasks(bs []Behaviour, splitDepth int) []task {
 		var collect func(n *node)
 		collect = func(n *node) {
 			if n.depth >= splitDepth || len(n.children) == 0 {
-				tasks = append(tasks, task{mode: m, root: n})
+				tasks = append(tasks, task{mode: m, opts: optsOf[m], root: n})
 				return
 			}
 			// the inner node itself is covered by the prefix of its children's tasks
@@ -199,14 +204,15 @@ func buildTasks(bs []Behaviour, splitDepth int) []task {
 
 // runTask replays one task on a world.
 func runTask(w *World, t task) taskResult {
-	res := taskResult{mode: t.mode}
+	res := taskResult{mode: t.mode, opts: t.opts}
 	emit := func(l Line, n *node) {
 		res.lines = append(res.lines, l)
 		res.nodes = append(res.nodes, n)
 	}
 	w.Reset()
-	emit(w.New(t.mode), nil)
-	if w.handlers[t.mode.String()] == nil {
+	first := w.New(t.mode, t.opts)
+	emit(first, nil)
+	if first.Res != "ok" || first.Panic != "" {
 		return res
 	}
 	prefix := t.root.path()
@@ -288,10 +294,11 @@ func ValidateTrace(p Plan, trace []byte) (*VResult, error) {
 
 // Finding is a monitor that failed on an observed step.
 type Finding struct {
-	Monitor string `json:"monitor"`
-	Mode    Mode   `json:"mode"`
-	Ops     []Op   `json:"ops"`  // the history up to and including the failing step
-	Line    Line   `json:"line"` // the failing step as observed
+	Monitor string   `json:"monitor"`
+	Mode    Mode     `json:"mode"`
+	Opts    []string `json:"opts"`
+	Ops     []Op     `json:"ops"`  // the history up to and including the failing step
+	Line    Line     `json:"line"` // the failing step as observed
 }
 
 // Outcome of replaying and validating the behaviours of one plan.
@@ -517,7 +524,7 @@ func ReplayAndValidate(c *core.Ctx, g *Gen, extra []Behaviour) (*Outcome, error)
 			if k < 0 {
 				return Finding{}, false
 			}
-			f := Finding{Monitor: mon, Mode: r.mode, Line: r.lines[k], Ops: []Op{}}
+			f := Finding{Monitor: mon, Mode: r.mode, Opts: r.opts, Line: r.lines[k], Ops: []Op{}}
 			if r.nodes[k] != nil {
 				f.Ops = r.nodes[k].path()
 			}
@@ -633,8 +640,8 @@ func describe(f Finding) string {
 	pre, _ := json.Marshal(f.Line.Pre)
 	calls, _ := json.Marshal(f.Line.Calls)
 	post, _ := json.Marshal(f.Line.Post)
-	return fmt.Sprintf("monitor %s failed in mode %s after %s: pending before %s, handed %s, returned %q, pending after %s%s",
-		f.Monitor, f.Mode, strings.Join(ops, " "), pre, calls, f.Line.Err, post, map[bool]string{true: " PANIC " + f.Line.Panic, false: ""}[f.Line.Panic != ""])
+	return fmt.Sprintf("monitor %s failed in mode %s (options %v) after %s: pending before %s, handed %s, returned %q, pending after %s%s",
+		f.Monitor, f.Mode, f.Opts, strings.Join(ops, " "), pre, calls, f.Line.Err, post, map[bool]string{true: " PANIC " + f.Line.Panic, false: ""}[f.Line.Panic != ""])
 }
 
 // Check runs the check of C20.
@@ -745,6 +752,13 @@ func Check(c *core.Ctx) int {
 		if out.Runs == 0 || out.Lines == 0 {
 			fmt.Println("INCONCLUSIVE: nothing replayed")
 			return core.ExitInconclusive
+		}
+		if out.Skipped > 0 {
+			c.Logf("plan %s: %d schedules not replayed after %d runs had ended by a time-out twice", p.Name, out.Skipped, pubMaxTimeouts)
+			if len(out.Findings) == 0 {
+				fmt.Printf("INCONCLUSIVE: plan %s: runs on the real EonKeyPublisher keep ending by time-outs without a monitor failing\n", p.Name)
+				return core.ExitInconclusive
+			}
 		}
 		for i, d := range out.Drift {
 			if i < 3 {
@@ -947,7 +961,7 @@ func Replay(c *core.Ctx) int {
 	for _, op := range rf.Finding.Ops {
 		n = n.child(op)
 	}
-	res := runTask(w, task{mode: rf.Finding.Mode, root: n})
+	res := runTask(w, task{mode: rf.Finding.Mode, opts: rf.Finding.Opts, root: n})
 	trace := encodeLines(res.lines)
 	vr, err := ValidateTrace(Plan{U: rf.Universe}, trace)
 	if err != nil {
